@@ -51,6 +51,10 @@ fn main() {
             println!("real : {}", real.show());
             println!("model: {} (rounds {})", model.outcome.show(), model.rounds);
             println!("{}", if real == model.outcome { "AGREE" } else { "DISAGREE" });
+            let t0 = std::time::Instant::now();
+            let full = detect::model_detect_mode(&mut d, &b, &s, true);
+            println!("full : {} (rounds {}, {:?})", full.outcome.show(), full.rounds, t0.elapsed());
+            println!("{}", if real == full.outcome { "AGREE-FULL" } else { "DISAGREE-FULL" });
         }
         Some("debug-large") => debug_large(),
         Some("debug-similar") => {
